@@ -12,12 +12,17 @@ L(srcs, fn, tgt) == [srcs |-> srcs, fn |-> fn, tgt |-> tgt]
 LinkSets == {<<L(<<"a">>, "id", "t")>>, <<L(<<"a">>, "one", "t")>>, <<L(<<"a", "b">>, "lin", "t")>>, <<L(<<"g">>, "grp", "t")>>,
              <<L(<<"g">>, "asdict", "d")>>,
              <<L(<<"a">>, "id", "mp")>>, <<L(<<"a", "b">>, "lin", "mp")>>, <<L(<<"g">>, "grp", "mp")>>,
-             <<L(<<"a", "b">>, "lin", "mp"), L(<<"g">>, "grp", "t")>>, <<L(<<"b", "a">>, "lin", "t"), L(<<"a">>, "one", "mp")>>}
+             <<L(<<"a", "b">>, "lin", "mp"), L(<<"g">>, "grp", "t")>>, <<L(<<"b", "a">>, "lin", "t"), L(<<"a">>, "one", "mp")>>,
+             \* Optional sources: an init_arg of a class argument, the whole Optional[Class] argument, a plain Optional argument
+             <<L(<<"sl">>, "id", "t")>>, <<L(<<"sl">>, "tot", "t")>>, <<L(<<"sl">>, "id", "mp")>>, <<L(<<"s">>, "cls", "t")>>,
+             <<L(<<"o">>, "id", "t")>>, <<L(<<"o">>, "tot", "mp")>>}
+OptLinkSets == {ls \in LinkSets : \E i \in DOMAIN ls : \E j \in DOMAIN ls[i].srcs : ls[i].srcs[j] \in {"o", "s", "sl"}}
 SubLinkSets == {<<L(<<"a", "b">>, "lin", "t")>>, <<L(<<"g">>, "grp", "mp")>>, <<L(<<"a", "b">>, "lin", "mp"), L(<<"g">>, "grp", "t")>>}
 Shapes == {[links |-> ls, mkind |-> mk, req |-> rq, sub |-> sb] :
              ls \in LinkSets, mk \in {"init", "list", "grp"}, rq \in BOOLEAN, sb \in BOOLEAN}
 ShapeOK(sh) == /\ (~HasM(sh) => sh.mkind = "init")
                /\ (sh.sub => sh.links \in SubLinkSets)
+               /\ ((sh.links \in OptLinkSets /\ HasM(sh)) => sh.mkind \in {"init", "grp"})
 TheShapes == {sh \in Shapes : ShapeOK(sh)}
 
 \* ------------------------------------------------------------------ the items a case can supply
@@ -29,33 +34,54 @@ P5 == [x \in {"p"} |-> Int(5)]
 P5Q3 == [x \in {"p", "q"} |-> IF x = "p" THEN Int(5) ELSE Int(3)]
 Q3 == [x \in {"q"} |-> Int(3)]
 Sources(sh) == UNION {{sh.links[i].srcs[j] : j \in DOMAIN sh.links[i].srcs} : i \in DOMAIN sh.links}
+OptVals == {NoneV, Int(0), Int(3), StrE, EList}
+L3 == [x \in {"limit"} |-> Int(3)]
+LNone == [x \in {"limit"} |-> NoneV]
+Null == [k |-> "null"]
 SrcItems(sh, chans) ==
   (IF "a" \in Sources(sh) THEN {It(ch, "a", Int(3)) : ch \in chans} \cup {It(ch, "a", Int(4)) : ch \in chans \cap {"argv", "obj"}} ELSE {})
   \cup (IF "b" \in Sources(sh) THEN {It(ch, "b", Int(4)) : ch \in chans \ {"env"}} ELSE {})
   \cup (IF "g" \in Sources(sh) THEN {It(ch, "gx", Int(3)) : ch \in chans} \cup {It(ch, "gy", Int(4)) : ch \in chans \cap {"argv", "obj"}} ELSE {})
+  \cup (IF "o" \in Sources(sh) THEN {It(ch, "o", v) : ch \in chans \cap {"argv", "obj"}, v \in OptVals} \cup {It(ch, "o", Int(3)) : ch \in chans \cap {"cfg"}} ELSE {})
+  \cup (IF Sources(sh) \cap {"s", "sl"} # {}
+        THEN {It(ch, "s", sp) : ch \in chans \cap {"argv", "obj"}, sp \in {Spec("Src", NoArgs), Spec("SrcSub", NoArgs), Spec("SrcNoL", NoArgs), Null}}
+             \cup {It(ch, "s", sp) : ch \in chans \cap {"cfg"}, sp \in {Spec("Src", L3), Spec("SrcSub", LNone)}}
+             \cup {It(ch, "sl", v) : ch \in chans \cap {"argv"}, v \in OptVals}
+        ELSE {})
 TgtItems(sh, chans) ==
   (IF "t" \in Targets(sh) THEN {It(ch, "t", Int(5)) : ch \in chans} ELSE {})
   \cup (IF "d" \in Targets(sh) THEN {It(ch, "d", DictV(7, 7)) : ch \in chans \ {"env"}} ELSE {})
   \cup (IF ~HasM(sh) THEN {}
+        \* shapes with an Optional source: a small set of items for m (the value supplied for the target is what matters)
+        ELSE IF sh.links \in OptLinkSets THEN
+             (IF sh.mkind = "init" THEN {It(ch, "m", sp) : ch \in chans \cap {"argv", "obj"}, sp \in {Spec("Base", NoArgs), Spec("NoP", NoArgs)}}
+                                        \cup {It(ch, "m", Spec("Sub", P5)) : ch \in chans \cap {"cfg"}} \cup {It(ch, "mp", Int(5)) : ch \in chans \cap {"argv"}}
+              ELSE {It(ch, "m", Spec("Base", P5Q3)) : ch \in chans \cap {"argv", "cfg", "obj"}} \cup {It(ch, "mp", Int(5)) : ch \in chans \cap {"cfg"}})
         ELSE IF sh.mkind = "init" THEN
              {It(ch, "m", sp) : ch \in chans \ {"env"}, sp \in {Spec("Base", NoArgs), Spec("Sub", NoArgs), Spec("NoP", NoArgs), Spec("Base", P5), Spec("Sub", P5Q3)}}
              \cup {It(ch, "mq", Int(3)) : ch \in chans \cap {"argv"}} \cup {It(ch, "mp", Int(5)) : ch \in chans \cap {"argv"}}
+             \cup (IF sh.sub \/ "argv" \notin chans THEN {} ELSE {It("file", "m", Spec("Sub", Q3)), It("cfgfile", "m", Spec("Base", P5))})
         ELSE IF sh.mkind = "list" THEN
              {It(ch, "m", Specs(s)) : ch \in chans \ {"env"},
                 s \in {<<Spec("Base", NoArgs)>>, <<Spec("Base", NoArgs), Spec("Sub", NoArgs)>>, <<Spec("NoP", NoArgs), Spec("Base", Q3)>>,
                        <<Spec("Base", P5), Spec("Sub", NoArgs)>>, <<Spec("NoP", NoArgs)>>, << >>}}
         ELSE {It(ch, "m", sp) : ch \in chans \ {"env"}, sp \in {Spec("Base", Q3), Spec("Base", P5Q3), Spec("Base", P5)}}
-             \cup {It(ch, "mq", Int(3)) : ch \in chans \cap {"argv"}} \cup {It(ch, "mp", Int(5)) : ch \in chans \cap {"argv", "cfg", "obj"}})
+             \cup {It(ch, "mq", Int(3)) : ch \in chans \cap {"argv"}} \cup {It(ch, "mp", Int(5)) : ch \in chans \cap {"argv", "cfg", "obj"}}
+             \cup (IF sh.sub \/ "argv" \notin chans THEN {} ELSE {It("file", "m", Spec("Base", P5Q3)), It("cfgfile", "m", Spec("Base", Q3))}))
 ItemsOf(sh, chans) == SrcItems(sh, chans) \cup TgtItems(sh, chans)
 
 \* parse_args: environment variables are read before the command line, whatever the order of the call
 EnvFirst(s) == \A i, j \in DOMAIN s : (i < j /\ s[j].chan = "env") => s[i].chan = "env"
+\* --s.limit on a class that has no such parameter is an invalid input (it fails for a reason that has nothing to do
+\* with links): such sequences are left out
+NoBadSl(s) == ~(\E i, j \in DOMAIN s : s[i].key = "sl" /\ s[j].key = "s" /\ s[j].val.k = "spec" /\ s[j].val.c = "SrcNoL")
 NoDupEnv(s) == \A i, j \in DOMAIN s : (i # j /\ s[i].chan = "env") => s[i].key # s[j].key \/ s[j].chan # "env"
 Bound(sh) == IF Len(sh.links) > 1 \/ sh.sub THEN PairItems ELSE MaxItems
-ArgsSeqs(sh) == {s \in UNION {[1..n -> ItemsOf(sh, {"env", "cfg", "argv"})] : n \in 0..Bound(sh)} : EnvFirst(s) /\ NoDupEnv(s)}
+ArgsSeqs(sh) == {s \in UNION {[1..n -> ItemsOf(sh, {"env", "cfg", "argv"})] : n \in 0..Bound(sh)} : EnvFirst(s) /\ NoDupEnv(s) /\ NoBadSl(s)}
 \* parse_object: one dict; keys are distinct, the order is immaterial (one representative)
 ObjSeqs(sh) == {s \in UNION {[1..n -> ItemsOf(sh, {"obj"})] : n \in 1..Bound(sh)} :
-                  /\ \A i, j \in DOMAIN s : i # j => (s[i].key # s[j].key /\ {s[i].key, s[j].key} # {"m", "mq"} /\ {s[i].key, s[j].key} # {"m", "mp"})
+                  /\ \A i, j \in DOMAIN s : i # j => (s[i].key # s[j].key /\ {s[i].key, s[j].key} # {"m", "mq"} /\ {s[i].key, s[j].key} # {"m", "mp"}
+                                                        /\ {s[i].key, s[j].key} # {"s", "sl"})
                   /\ \A i, j \in DOMAIN s : i < j => s[i] # s[j]}
 
 VARIABLES phase, shape, api, items
@@ -68,6 +94,8 @@ Case == phase = "case"
 Out  == AlgParse(shape, items)
 Dmp  == AlgDump(shape, Out.c)
 Re   == AlgReparse(shape, Dmp)
+Sv   == AlgSaveMulti(shape, Out.c)
+SvRe == AlgSaveReparse(shape, Sv)
 
 \* C15, design level: the transcription satisfies every clause of the property ...
 ParseRefinesRef == Case => RefParseOK(shape, items, Out)
@@ -75,7 +103,15 @@ ParseRefinesRef == Case => RefParseOK(shape, items, Out)
 DumpRefinesRef == (Case /\ Out.ok /\ ~ListItemsKeepTarget(shape, Out.c)) => DumpHidesTarget(shape, Dmp)
 DeviationExact == (Case /\ Out.ok /\ ListItemsKeepTarget(shape, Out.c)) => ~DumpHidesTarget(shape, Dmp)
 \* ... and re-parsing the dump reconstructs the configuration
-ReparseRefinesRef == (Case /\ Out.ok) => (Reconstructed(shape, Out.c, Re) /\ Re.c = Out.c)
+ReparseRefinesRef == (Case /\ Out.ok) => Reconstructed(shape, Out.c, Re)
+\* ... save() in both modes writes no file that contains a target (the single-file mode is dump), and the saved
+\* configuration reconstructs the targets as well
+SaveRefinesRef == (Case /\ Out.ok /\ ~ListItemsKeepTarget(shape, Out.c)) =>
+                    (SaveHidesTarget(shape, Sv.main, Sv.sub) /\ Reconstructed(shape, Out.c, SvRe))
+\* non-vacuity of the Optional domain: a live source holding None overrides a supplied / default target with fn(None)
+NoneIsAValue == (Case /\ Out.ok) => \A i \in DOMAIN shape.links :
+                  (Live(Out.c, shape.links[i]) /\ shape.links[i].fn = "id" /\ SrcVal(Out.c, shape.links[i].srcs[1]) = NoneV /\ shape.links[i].tgt = "t")
+                    => Out.c.t = NoneV
 \* parsing is idempotent on the sources: the targets of a parsed configuration are a function of its sources only
 TargetsFunctionOfSources == (Case /\ Out.ok) => \A i \in DOMAIN shape.links : TargetEqLink(shape, Out.c, shape.links[i])
 
@@ -91,6 +127,7 @@ CreationRefinesRef == (phase = "seed" /\ shape = OneShape /\ api = "args") =>
 CfgJson(c) == c
 EmitCase == (Case /\ Emit) =>
   PrintT(ToJson([shape |-> shape, api |-> api, items |-> items, ok |-> Out.ok, c |-> Out.c,
-                 dump |-> Dmp, dev |-> (Out.ok /\ ListItemsKeepTarget(shape, Out.c)), reok |-> Re.ok, rec |-> Re.c]))
+                 dump |-> Dmp, dev |-> (Out.ok /\ ListItemsKeepTarget(shape, Out.c)), reok |-> Re.ok, rec |-> Re.c,
+                 smain |-> Sv.main, ssub |-> Sv.sub, sreok |-> SvRe.ok, srec |-> SvRe.c]))
 ASSUME PrintT(<<"SEEDS", 2 * Cardinality(TheShapes)>>)
 =============================================================================
